@@ -29,10 +29,16 @@ type fld struct {
 func unknownField(r *rand.Rand) regtable.Elem {
 	var e regtable.Elem
 	e.Type = refipfix.OctetArray
+	// half of the time the id comes from a small pool, so that one long-lived collector sees
+	// the same unknown element again and again with different lengths
+	small := r.IntN(2) == 0
 	switch r.IntN(3) {
 	case 0:
 		for {
 			e.ID = uint16(500 + r.IntN(30000))
+			if small {
+				e.ID = uint16(20000 + r.IntN(6))
+			}
 			if !lib.Table.Mentioned(0, e.ID) {
 				break
 			}
@@ -43,10 +49,16 @@ func unknownField(r *rand.Rand) regtable.Elem {
 			e.Ent = 4444
 		}
 		e.ID = uint16(1 + r.IntN(32000))
+		if small {
+			e.Ent, e.ID = 4444, uint16(1+r.IntN(6))
+		}
 	default:
 		e.Ent = []uint32{56506, 29305, lib.CustomPEN}[r.IntN(3)]
 		for {
 			e.ID = uint16(2000 + r.IntN(30000))
+			if small {
+				e.ID = uint16(25000 + r.IntN(6))
+			}
 			if !lib.Table.Mentioned(e.Ent, e.ID) {
 				break
 			}
@@ -194,19 +206,32 @@ func build(dom uint32, tid uint16, fl []fld, vals [][][]byte, withUnknown bool) 
 	return refipfix.BuildMessage(dom, 0, 1, 2, refipfix.EncodeTemplateRecord(tid, fields)), refipfix.BuildMessage(dom, 0, 1, tid, body)
 }
 
+// one long-lived collecting process per mode (as in production), shared by every case of the batch
+var persistent = map[string]*lib.Decoder{}
+var nextTID = uint16(300)
+
 func check(c *hx.Ctx, reg *mirror.Registry, k int, mode string, fl []fld, vals [][][]byte, desc map[string]any) {
-	tWith, dWith := build(5, 400, fl, vals, true)
-	tWithout, dWithout := build(5, 400, fl, vals, false)
+	nextTID += 2
+	if nextTID < 300 {
+		nextTID = 300
+	}
+	tidWith, tidWithout := nextTID, nextTID+1
+	tWith, dWith := build(5, tidWith, fl, vals, true)
+	tWithout, dWithout := build(5, tidWithout, fl, vals, false)
 	detail := map[string]any{"mode": mode, "shape": desc["shape"], "template": fmt.Sprintf("%x", tWith), "data": fmt.Sprintf("%x", clip(dWith, 1500))}
 	fail := func(class, why string) {
 		c.Violation(k, class+":"+mode, why, detail)
 	}
 	run := func(tm, dm []byte) (*mirror.Outcome, *mirror.Outcome, bool) {
-		dec, err := lib.NewDecoder("tcp", collector.DecodingMode(mode), 0, nil)
-		if err != nil {
-			panic(err)
+		dec := persistent[mode]
+		if dec == nil {
+			var err error
+			dec, err = lib.NewDecoder("tcp", collector.DecodingMode(mode), 0, nil)
+			if err != nil {
+				panic(err)
+			}
+			persistent[mode] = dec
 		}
-		defer dec.Close()
 		m, derr, pv, st := dec.Decode(tm)
 		if pv != nil {
 			c.Violation(k, "panic:template:"+mode, fmt.Sprint(pv), map[string]any{"detail": detail, "stack": st})
